@@ -452,22 +452,43 @@ def rule_rebuild(ctx) -> RuleResult:
                 has_parent = any(k.arg == "parent" for k in c.keywords) or len(c.args) > 2
                 if not has_parent:
                     flat_order = True
-    # does fetch_children re-attach a child that is already registered?
-    al = Alias(fc.node)
-    found = set()
-    for a in ast.walk(fc.node):
-        if isinstance(a, (ast.Assign, ast.AnnAssign, ast.NamedExpr)) and getattr(a, "value", None) is not None:
-            v = al.x(a.value)
-            if isinstance(v, ast.Subscript) and isinstance(v.value, ast.Call) and _func_name(v.value) == "get_entity":
-                tgs = a.targets if isinstance(a, ast.Assign) else [a.target]
-                found |= {t.id for t in tgs if isinstance(t, ast.Name)}
-    if not found:
+    # does fetch_children re-attach a child that is already registered?  (fetch_children itself, or the helper / generator of
+    # the workspace it hands the children to)
+    parts, seen_c, work = [], set(), [(fc, 0)]
+    while work:
+        fn, depth = work.pop()
+        if fn.name in seen_c:
+            continue
+        seen_c.add(fn.name)
+        v = fn if fn is fc else ctx.view(fn)
+        parts.append(v)
+        sn = v.self_name or "self"
+        if depth < 2:
+            for c in ast.walk(v.node):
+                if isinstance(c, ast.Attribute) and isinstance(c.ctx, ast.Load) and isinstance(c.value, ast.Name) and c.value.id == sn and c.attr not in STOP:
+                    m = W.lookup(c.attr)
+                    if m and m[1] == "method":
+                        work.append((m[2], depth + 1))
+    found_any, reattach = False, False
+    for v in parts:
+        al = Alias(v.node)
+        found = set()
+        for a in ast.walk(v.node):
+            if isinstance(a, (ast.Assign, ast.AnnAssign, ast.NamedExpr)) and getattr(a, "value", None) is not None:
+                x = al.x(a.value)
+                if isinstance(x, ast.Subscript) and isinstance(x.value, ast.Call) and _func_name(x.value) == "get_entity":
+                    tgs = a.targets if isinstance(a, ast.Assign) else [a.target]
+                    found |= {t.id for t in tgs if isinstance(t, ast.Name)}
+        if not found:
+            continue
+        found_any = True
+        prms = set(v.params[1:])
+        reattach = reattach or any(
+            (isinstance(n, ast.Assign) and any(isinstance(t, ast.Attribute) and t.attr in ("parent", "_parent") and isinstance(t.value, ast.Name) and t.value.id in found for t in n.targets))
+            or (isinstance(n, ast.Call) and _func_name(n) == "add_children" and isinstance(n.func, ast.Attribute) and al.text(n.func.value) in prms)
+            for n in ast.walk(v.node))
+    if not found_any:
         raise AnalysisError("Workspace.fetch_children: lookup of already registered children not found")
-    ent = fc.params[1]
-    reattach = any(
-        (isinstance(n, ast.Assign) and any(isinstance(t, ast.Attribute) and t.attr in ("parent", "_parent") and isinstance(t.value, ast.Name) and t.value.id in found for t in n.targets))
-        or (isinstance(n, ast.Call) and _func_name(n) == "add_children" and isinstance(n.func, ast.Attribute) and al.text(n.func.value) == ent)
-        for n in ast.walk(fc.node))
     ok = (not flat_order) or reattach
     res.inst("root rebuild: recovered entities end under their recorded parent (parent-first order, explicit parent, or re-attachment in fetch_children)",
              nontrivial=True, ok=ok)
@@ -547,4 +568,186 @@ def rule_default(ctx) -> RuleResult:
     return res
 
 
-RULES = [rule_guard, rule_scope, rule_load, rule_rebuild, rule_default]
+def rule_element(ctx) -> RuleResult:
+    res = RuleResult(
+        "C19.ELEMENT",
+        "C19",
+        "on the load path of Workspace, in a loop that loads the elements listed in the file one by one (the result of "
+        "load_entity bound per element; the loop may live in a helper or in a generator feeding another loop), an element "
+        "that cannot be loaded (None) skips that element only: from the load, with the element None, no path leaves the "
+        "loop — no return (end of a generator), no break — before the next element is taken; raising is allowed",
+        floor=1,
+    )
+    seen, _receivers, _ = _load_path(ctx)
+    for nm, fn in sorted(seen.items()):
+        al0 = Alias(fn.node)
+        parent = {}
+        for x in ast.walk(fn.node):
+            for c in ast.iter_child_nodes(x):
+                parent[id(c)] = x
+
+        def loop_of(x):
+            while id(x) in parent:
+                x = parent[id(x)]
+                if isinstance(x, (ast.For, ast.While)):
+                    return x
+                if isinstance(x, (ast.FunctionDef, ast.Lambda)) and x is not fn.node:
+                    return None
+            return None
+
+        def is_load(e):
+            f = al0.x(e.func) if isinstance(e, ast.Call) else None
+            return isinstance(f, (ast.Attribute, ast.Name)) and (f.attr if isinstance(f, ast.Attribute) else f.id) == "load_entity"
+
+        per_loop: dict = {}
+        for a in ast.walk(fn.node):
+            if isinstance(a, (ast.Assign, ast.AnnAssign, ast.NamedExpr)) and getattr(a, "value", None) is not None and is_load(a.value):
+                tgs = a.targets if isinstance(a, ast.Assign) else [a.target]
+                names = {t.id for t in tgs if isinstance(t, ast.Name)}
+                lp = loop_of(a)
+                if names and isinstance(lp, ast.For):
+                    per_loop.setdefault(id(lp), (lp, [], set()))
+                    per_loop[id(lp)][1].append(a)
+                    per_loop[id(lp)][2].update(names)
+        if not per_loop:
+            continue
+        g = CFG(fn.node)
+        for lp, binds, names in per_loop.values():
+            al = Alias(fn.node, keep=names)
+            facts = _none_facts(names)
+            head = next((n for n in g.nodes if n.kind == "fornext" and n.stmt is lp), None)
+            starts = [n for n in g.nodes if n.ast is not None and not isinstance(n.ast, list)
+                      and any(b is y for b in binds for e in node_exprs(n) for y in ast.walk(e))]
+            if head is None or not starts:
+                raise AnalysisError(f"Workspace.{nm}: loop loading elements not found in the flow graph")
+            reached, work = set(), [m for n in starts for m, lab in n.succ if lab not in ("exc", "raise")]
+            while work:
+                n = work.pop()
+                if n in reached or n is head:
+                    continue
+                reached.add(n)
+                if n.kind in ("return", "raise") or n in (g.exit, g.rexit):
+                    continue
+                succ = [(m, lab) for m, lab in n.succ if lab not in ("exc", "raise")]
+                if n.kind == "test" and n.ast is not None and not (bound_by(n) & names):
+                    t = al.x(n.ast)
+                    vals = {tv(t, x, facts) for x in names} - {None}
+                    if vals == {True}:
+                        succ = [(m, lab) for m, lab in succ if lab != "false"]
+                    elif vals == {False}:
+                        succ = [(m, lab) for m, lab in succ if lab != "true"]
+                if bound_by(n) & names and n not in starts:
+                    continue  # the element is bound anew: what follows is judged from that load
+                work.extend(m for m, _ in succ)
+            leaves = [n for n in reached if n.kind == "return" or n is g.exit or (n.kind == "break" and loop_of(n.stmt) is lp)]
+            res.inst(f"Workspace.{nm}:{lp.lineno} loop loading elements: an element that fails to load skips that element only", nontrivial=True, ok=not leaves)
+            for n in leaves[:1]:
+                what = "return" if n.kind == "return" or n is g.exit else "break"
+                res.find("Workspace", nm, f"an element that cannot be loaded ends the loop over the elements ({what})", f"{fn.module.relpath}:{n.lineno or lp.lineno}",
+                         f"when load_entity returns None for one listed element (its node, type link or a mandatory attribute is missing) the {what} leaves the loop"
+                         + (" / ends the generator" if what == "return" else "") + ": every element listed after it — and its sub-tree — is silently left out "
+                         "although nothing describing those elements is missing")
+    return res
+
+
+def _chain(e) -> list:
+    """the links of a lookup chain, outermost first: [(node, 'hard' | 'soft')] — subscripts raise KeyError, .get / attrs do not"""
+    out = []
+    while True:
+        if isinstance(e, ast.Subscript) and not is_materialisation(e):
+            out.append((e, "hard"))
+            e = e.value
+        elif isinstance(e, ast.Subscript):
+            e = e.value
+        elif isinstance(e, ast.Call) and isinstance(e.func, ast.Attribute) and e.func.attr == "get":
+            out.append((e, "soft"))
+            e = e.func.value
+        elif isinstance(e, ast.Attribute):
+            e = e.value
+        else:
+            out.append((e, "base"))
+            return out
+
+
+def rule_fallback(ctx) -> RuleResult:
+    res = RuleResult(
+        "C19.FALLBACK",
+        "C19",
+        "inside H5Reader, a tolerant read whose absence has a FALLBACK on the same node (`v = <node>...get(k)`, then `if v is None: "
+        "v = <node>.get(k')`, or `v = <read> or <other read>`) is tolerant along its whole chain below the node both reads share: "
+        "no subscript that can raise KeyError sits in front of it (unless dominated by an `in` test of that key) — otherwise a "
+        "missing intermediate container (an empty child container is optional) bypasses the fallback and the value that is "
+        "stored one level up is reported as absent",
+        floor=0,
+    )
+    for name, fn, _by, handles, _roles in reader_units(ctx):
+        tainted = tainted_names(fn, handles)
+        if not tainted:
+            continue
+        al = Alias(fn.node)
+        pairs = []  # (statement of the primary read, primary expr, fallback expr)
+        assigns: dict = {}
+        for a in ast.walk(fn.node):
+            if isinstance(a, ast.Assign) and len(a.targets) == 1 and isinstance(a.targets[0], ast.Name):
+                assigns.setdefault(a.targets[0].id, []).append(a)
+                v = a.value
+                if isinstance(v, ast.BoolOp) and isinstance(v.op, ast.Or) and len(v.values) >= 2:
+                    pairs += [(a, v.values[0], f) for f in v.values[1:]]
+                if isinstance(v, ast.IfExp) and isinstance(v.test, ast.Compare) and len(v.test.ops) == 1 and isinstance(v.test.ops[0], (ast.Is, ast.IsNot)) \
+                        and isinstance(v.test.comparators[0], ast.Constant) and v.test.comparators[0].value is None:
+                    # `p if p is not None else f` / `f if p is None else p`: the other branch is the fallback of the read that is tested
+                    prim_, fb_ = (v.body, v.orelse) if isinstance(v.test.ops[0], ast.IsNot) else (v.orelse, v.body)
+                    if unparse(al.x(v.test.left)) == unparse(al.x(prim_)):
+                        pairs.append((a, prim_, fb_))
+        for i in ast.walk(fn.node):
+            if not isinstance(i, ast.If):
+                continue
+            for v in {x.id for x in ast.walk(i.test) if isinstance(x, ast.Name)} & set(assigns):
+                t = Alias(fn.node, keep={v}).x(i.test)
+                val = tv(t, v, _none_facts([v]))
+                branch = i.body if val is True else (i.orelse if val is False else [])
+                inside = {id(x) for st in branch for x in ast.walk(st)}
+                fbs = [a for a in assigns[v] if id(a) in inside]
+                for fb in fbs:
+                    pairs += [(a, a.value, fb.value) for a in assigns[v] if id(a) not in inside and not (isinstance(a.value, ast.Constant) and a.value.value is None)]
+        if not pairs:
+            continue
+        g = CFG(fn.node)
+        IN = _flow_facts(g, al)
+        node_of = {}
+        for n in g.nodes:
+            if n.kind == "stmt" and n.ast is not None:
+                node_of[id(n.ast)] = n
+        done = set()
+        for st, prim, fb in pairs:
+            P, F = al.x(prim), al.x(fb)
+            cp, cf = _chain(P), _chain(F)
+            def tolerant(e):
+                c = _chain(e)
+                return bool(c) and c[0][1] == "soft" and handle_expr(c[0][0].func.value, tainted)
+
+            if not (tolerant(prim) or tolerant(P)):
+                continue  # the primary read is not a .get on a node of the file
+            shared = {unparse(e) for e, _k in cf if _k != "base"} | {unparse(cf[-1][0])}
+            if not any(unparse(e) in shared for e, _k in cp[1:]):
+                continue  # the two reads are not about the same node
+            key_ = (id(st), unparse(P), unparse(F))
+            if key_ in done:
+                continue
+            done.add(key_)
+            facts = IN.get(node_of.get(id(st)), frozenset()) | inner_facts(st, prim, al.x)
+            bad = []
+            for e, kind in cp[1:]:
+                if unparse(e) in shared:
+                    break  # from here down both reads go through the same lookups
+                if kind == "hard" and not any(f[0] == "in" and f[1] == unparse(e.slice) and f[2] == unparse(strip_view(e.value)) for f in facts):
+                    bad.append(e)
+            res.inst(f"H5Reader.{name}:{st.lineno} tolerant read with a fallback on the same node: tolerant along its chain", nontrivial=True, ok=not bad)
+            for e in bad[:1]:
+                res.find("H5Reader", name, f"a lookup that can raise sits in front of a tolerant read that has a fallback: [{unparse(e.slice)}]", f"{fn.module.relpath}:{st.lineno}",
+                         f"when the container [{unparse(e.slice)}] is missing (it may be: an empty child container is optional) the KeyError leaves the block and the "
+                         "fallback read one level up is never tried — values that ARE on file are reported as absent and the entities that hold them come back altered")
+    return res
+
+
+RULES = [rule_guard, rule_scope, rule_load, rule_rebuild, rule_default, rule_element, rule_fallback]
